@@ -615,7 +615,9 @@ func (x *Exec) havocModifies(st *State, spec *FuncSpec, env *Env) {
 		}
 		a := st.heapGet(name, s)
 		for _, idx := range ml.precise[name] {
-			a = Store(a, idx, st.fresh("hv", s.Elem()))
+			hv := st.fresh("hv", s.Elem())
+			st.pendingAx = append(st.pendingAx, pendingAxiom{name, hv, true})
+			a = Store(a, idx, hv)
 		}
 		st.heapSet(name, a)
 	}
